@@ -27,7 +27,6 @@ from ufl.domain import extract_unique_domain, sort_domains
 from ufl.equation import Equation
 from ufl.integral import Integral
 from ufl.utils.counted import Counted
-from ufl.utils.sorting import sorted_by_count
 
 if typing.TYPE_CHECKING:
     from ufl.classes import AbstractDomain
@@ -438,7 +437,9 @@ class Form(BaseForm):
 
             numbering = {}
             for exprs in exprs_by_type.values():
-                for i, expr in enumerate(sorted_by_count(exprs)):
+                # exprs is a set: break ties between different objects with the same
+                # (explicitly given) count by repr, not by hash order
+                for i, expr in enumerate(sorted(exprs, key=lambda e: (e.count(), repr(e)))):
                     numbering[expr] = i
             self._terminal_numbering = numbering
         return self._terminal_numbering
